@@ -168,6 +168,35 @@ def run(F, rep, tier):
             rep.viol('R11.4', '%s|abs-length' % p_, '%s takes an absolute value of a bound difference (%s): a slice with crossed bounds (s[4:2]) gets |hi - lo| elements instead of none' % (p_, ab_[0].target.rsplit('::', 1)[-1]), ab_[0].loc())
         else:
             rep.ok('R11.4', '%s slice length' % p_, 'no absolute value of bound differences')
+    # peek reports exhaustion exactly when next does: a "cursor longer than the base" style guard (a comparison of two lengths) occurs in
+    # peek - including the helpers it calls - only for stream types whose next() has such a guard too
+    def _lenlen(fn):
+        n_ = 0
+        bodies = [F.body(fn)] + [F.body(c_) for c_ in F.closures_of(fn)]
+        for b_ in list(bodies):
+            for c in b_.calls:
+                if F.has_fn(c.target) and c.target != fn and not c.target.startswith('<') and c.target.split('::')[0] in ('streams', 'core') and len(F.body(c.target).blocks) < 60:
+                    bodies.append(F.body(c.target))
+        for b_ in bodies:
+            for bb in b_.reach:
+                for s_ in b_.stmts(bb):
+                    if s_[0] == 'a' and s_[2][0] == 'bin' and s_[2][1] in ('Gt', 'Lt', 'Ge', 'Le'):
+                        o1, o2 = origins(b_, s_[2][2]), origins(b_, s_[2][3])
+                        if o1 and o2 and all(o[0] == 'call' and o[1].endswith('::len') for o in o1) and all(o[0] == 'call' and o[1].endswith('::len') for o in o2):
+                            n_ += 1
+        return n_
+    for imp in impls:
+        ty = imp['self_ty']
+        its = [i for i in F.impls if i['trait'] == 'std::iter::Iterator' and i['self_ty'] == ty]
+        nx_ = F.impl_fn(its[0], 'next') if its else None
+        pk_ = F.impl_fn(imp, 'peek')
+        if not (nx_ and pk_ and F.has_fn(nx_) and F.has_fn(pk_)):
+            continue
+        gn, gp = _lenlen(nx_), _lenlen(pk_)
+        if gp and not gn:
+            rep.viol('R11.6', '%s|peek-only-length-guard' % ty.split('<')[0], '%s::peek (or a helper it calls) reports exhaustion on a comparison of two lengths that next() never makes: peek says "empty" while iteration still yields elements (drop-while over such a stream keeps everything)' % ty, F.body(pk_).loc(0))
+        else:
+            rep.ok('R11.6', '%s peek/next length guards' % ty, 'next %d, peek %d' % (gn, gp))
     # ---------------- R11.8
     rep.rule('R11.8', 'iterate(a, f) yields an element before it applies f to it: in the ready (Ok) state Iterate::next returns Some(Ok(current)) '
              'on every path - a failure or break of the step function is stored for the following call, it does not replace the element that '
